@@ -316,6 +316,33 @@ def _segments_nodes_are_rawtext(ctx: Ctx, report: bool = False) -> bool:
                 elif isinstance(sub, ast.List) and node.kind == "stmt" and isinstance(node.ast, ast.Return) and sub is node.ast.value:
                     tup = list(sub.elts)
                 for t in tup:
+                    if isinstance(t, ast.Name):
+                        # a temporary holding the segment (a spliced constructor helper leaves one)
+                        try:
+                            t = expand_expr(prog, cs, t, node, depth=1)
+                        except Exception:  # noqa: BLE001
+                            pass
+                    if isinstance(t, ast.Call) and not (isinstance(t, ast.Tuple)) and _record_fields(ctx, cs, t) is None:
+                        # a one-line constructor helper: `def _context_segment(text): return _Segment(text=text, node=None)`
+                        tg = prog.resolve_call(cs, t)
+                        if isinstance(tg, list) and len(tg) == 1 and not isinstance(tg[0].node, ast.Lambda):
+                            h = tg[0]
+                            hb = [st for st in h.node.body if not (isinstance(st, ast.Expr) and isinstance(st.value, ast.Constant))]
+                            if len(hb) == 1 and isinstance(hb[0], ast.Return) and hb[0].value is not None:
+                                from ..dataflow import bind_call as _bind
+                                from ..inline import clone as _clone
+                                b = _bind(h, t)
+
+                                class _Sub(ast.NodeTransformer):
+                                    def visit_Name(self, nd):
+                                        return _clone(b[nd.id]) if nd.id in b and isinstance(nd.ctx, ast.Load) else nd
+                                inner = _Sub().visit(_clone(hb[0].value))
+                                if isinstance(inner, ast.Tuple) and len(inner.elts) == 2:
+                                    t = ast.copy_location(inner, t)
+                                else:
+                                    pr = _record_as_pair(ctx, h, inner)
+                                    if pr is not None:
+                                        t = ast.copy_location(pr, t)
                     if isinstance(t, ast.Tuple) and len(t.elts) == 2:
                         sites.append((node, t))
                     else:
